@@ -61,6 +61,12 @@ def decide_oracles(cases):
         parts = [x.strip() for x in v.strip("()").split(",")]
         c["coq_full"] = c["coq"]
         c["coq"] = "true" if parts[0] == "true" else "false"
+        if c["k"] == "select" and len(parts) > 3 and parts[3] == "true":
+            # the engine model answers Unsup: no prediction, so no row-for-row comparison; the
+            # oracle below still judges the implementation's answer
+            c["coq"] = "true"
+            c["not_modelled"] = True
+            c.setdefault("tags", []).append("sparql:model-unsup(not compared)")
         if c.get("oracle") == "fail":      # a panic: decided by the harness
             continue
         ok = len(parts) > 1 and parts[1] == "true"
@@ -114,6 +120,15 @@ def run(tier, seed):
     n_or = decide_oracles(cases)
     gv.standard_flow(chk, REQ_RUN, cases, proof, "C13")
     chk.coverage["oracle_evaluations_in_coq"] = n_or
+    nm = [c for c in cases if c.get("not_modelled")]
+    chk.coverage["not_modelled_by_engine_model"] = {
+        "count": len(nm),
+        "what": "SELECT cases for which the engine model answers Unsup (a UNION of branches with different numbers of columns "
+                "feeding a join, sort or DISTINCT): not compared row for row, judged by the oracle only",
+        "oracle_failed": sum(1 for c in nm if c.get("oracle") == "fail"),
+        "samples": [c["in"][:300] for c in nm[:3]],
+    }
+    chk.coverage["traces_validated_against_impl"] = chk.coverage.get("traces_validated_against_impl", 0) - len(nm)
     chk.coverage["rule"] = (
         "store: sequences of 1-40 operations (insert / duplicate insert / remove of present and absent triples / clear / "
         "insert_in_tx, remove_in_tx, commit_tx, rollback_tx) over 3-9 terms with delicate equalities, both store configurations, "
